@@ -18,6 +18,7 @@ sample; real dtype; finite; unit norm within 1e-9 (proper rotation within 1e-9
 for matrices; finite triple for angles).  Any exception is a violation (the
 inputs are well-formed by construction).
 """
+import math
 import os
 import random
 import numpy as np
@@ -184,8 +185,30 @@ class Check:
                 return slow + lab
             return slow + 'generic'
 
-        def v(t, symptom, k, detail, arch):
-            return {'component': t.kind.name, 'symptom': symptom, 'trigger': trigger_at(t, k), 'step': k, 'detail': f'[{arch}] ' + detail, 'task': t.idx}
+        def antipodal(t, k, prev):
+            """True when the attitude the filter held before sample k predicts gravity (almost) exactly opposite to the
+            accelerometer sample: the 180-degree tilt error at which every such filter has its unstable equilibrium."""
+            try:
+                if k is None or prev is None or not t.kind.recursive or 'a' not in t.kind.sensors:
+                    return False
+                prev = np.asarray(prev, dtype=float)
+                if prev.shape != (4,) or not np.all(np.isfinite(prev)):
+                    return False
+                a_ref, _ = t.kind.refs(t.p, scn['world']['dip'])
+                pred = qm.q2R(qm.qconj(prev) if t.kind.conj else prev).T @ np.array(a_ref, dtype=float)
+                if qm.vec_angle(pred, hist.acc[t.key][k]) > math.radians(179.0):
+                    return True
+                # ... or a half-turn away from the sensed attitude altogether (e.g. heading error of exactly 180 degrees)
+                target = qm.qconj(hist.truth[k]) if t.kind.conj else hist.truth[k]
+                return qm.rot_angle(prev, target) > math.radians(179.0)
+            except Exception:       # noqa: BLE001
+                return False
+
+        def v(t, symptom, k, detail, arch, prev=None):
+            trig = trigger_at(t, k)
+            if antipodal(t, k, prev):
+                trig = 'antipodal:' + trig
+            return {'component': t.kind.name, 'symptom': symptom, 'trigger': trig, 'step': k, 'detail': f'[{arch}] ' + detail, 'task': t.idx}
 
         # streams start at the truth (a valid attitude); single-frame tasks have no state
         q_inits = []
@@ -217,7 +240,8 @@ class Check:
                             break
                         d = CM.attitude_defect(o, rep_s, UNIT_TOL)
                         if d is not None:
-                            viol.append(v(t, CM.defect_class(d), k, f'tick {k}: output {d}: {np.array2string(np.asarray(o), precision=6, threshold=12)} for acc={self._row(hist.acc[t.key], k)} mag={self._row(hist.mag[t.key], k)}', 'stream'))
+                            viol.append(v(t, CM.defect_class(d), k, f'tick {k}: output {d}: {np.array2string(np.asarray(o), precision=6, threshold=12)} for acc={self._row(hist.acc[t.key], k)} mag={self._row(hist.mag[t.key], k)}', 'stream',
+                                          prev=(t.out[k - 1] if k >= 1 and isinstance(t.out[k - 1], np.ndarray) else None)))
                             break
             # batch constructor on a private copy of the same history
             np.random.seed((scn['rng_seed'] + t.idx) & 0x7FFFFFFF)
@@ -240,7 +264,8 @@ class Check:
                         for k in range(hist.n):
                             d = CM.attitude_defect(res[k], rep, UNIT_TOL)
                             if d is not None:
-                                viol.append(v(t, CM.defect_class(d), k, f'row {k}: {d}: {np.array2string(np.asarray(res[k]), precision=6, threshold=12)} for acc={self._row(hist.acc[t.key], k)} mag={self._row(hist.mag[t.key], k)}', 'batch'))
+                                viol.append(v(t, CM.defect_class(d), k, f'row {k}: {d}: {np.array2string(np.asarray(res[k]), precision=6, threshold=12)} for acc={self._row(hist.acc[t.key], k)} mag={self._row(hist.mag[t.key], k)}', 'batch',
+                                              prev=(res[k - 1] if k >= 1 and rep == 'quaternion' else None)))
                                 break
         pipe.log.add('viol', [(x['component'], x['symptom'], x['step']) for x in viol])
         fired = any(hist.fired.values())
